@@ -279,7 +279,7 @@ func run(head bool, acts []action) string {
 
 	// writer side of the client
 	cw := bfe_http2.NewFramer(c1, nil)
-	c1.SetWriteDeadline(time.Now().Add(10 * time.Second))
+	c1.SetWriteDeadline(time.Now().Add(120 * time.Second))
 	if _, err := c1.Write([]byte(bfe_http2.ClientPreface)); err != nil {
 		return "err:preface"
 	}
@@ -300,10 +300,10 @@ func run(head bool, acts []action) string {
 	}
 	select {
 	case <-handlerRet:
-	case <-time.After(10 * time.Second):
+	case <-time.After(120 * time.Second):
 		return "HANG:handler"
 	}
-	deadline := time.Now().Add(10 * time.Second)
+	deadline := time.Now().Add(120 * time.Second)
 	for !bfe_http2.VerifC38HandlerFinished(rwSeen) {
 		if time.Now().After(deadline) {
 			return "HANG:handlerDone"
@@ -314,7 +314,7 @@ func run(head bool, acts []action) string {
 	// those sitting in wantWriteFrameCh or in the scheduler.  PING round trips are processed by the serve
 	// loop strictly after the frames it picked up before; see below.
 	var frames []string
-	timeout := time.After(10 * time.Second)
+	timeout := time.After(120 * time.Second)
 	ping := func() bool {
 		if err := cw.WritePing(false, [8]byte{1, 2, 3, 4, 5, 6, 7, 8}); err != nil {
 			frames = append(frames, "E:ping")
@@ -599,5 +599,5 @@ func pre(emit func(op string), thorough bool) {
 
 func main() {
 	vh.Pre = pre
-	vh.Main(gen, func(op string) string { return vh.SafeTimeout(30*time.Second, func() string { return exec(op) }) })
+	vh.Main(gen, func(op string) string { return vh.SafeTimeout(600*time.Second, func() string { return exec(op) }) })
 }
